@@ -7,13 +7,13 @@ seed="$1"; prop="$2"; tier="${3:-quick}"
 wt="/tmp/wt-seed-$$"
 git -C /repo worktree add -q --detach "$wt" HEAD || exit 2
 if ! git -C "$wt" apply "/verif/seeded/$seed/patch.diff"; then
-  echo "patch does not apply"; git -C /repo worktree remove --force "$wt"
-# binaries / module files built against scratch trees of earlier runs
-find /verif/harness/bin -name '*-????????' -mmin +45 -delete 2>/dev/null
-find /verif/work -maxdepth 1 \( -name 'alt-*' -o -name 'evidence-*' -o -name 'replays-*' \) -mmin +45 -exec rm -rf {} + 2>/dev/null; exit 2
+  echo "patch does not apply"; git -C /repo worktree remove --force "$wt"; exit 2
 fi
 cd /verif && VERIF_REPO="$wt" ./check "$prop" "$tier" 2>&1 | grep -v "^note:" | tail -4
 rc=$?
 git -C /repo worktree remove --force "$wt"
 git -C /repo worktree prune
+# binaries / module files built against scratch trees of earlier runs
+find /verif/harness/bin -name '*-????????' -mmin +45 -delete 2>/dev/null
+find /verif/work -maxdepth 1 \( -name 'alt-*' -o -name 'evidence-*' -o -name 'replays-*' \) -mmin +45 -exec rm -rf {} + 2>/dev/null
 exit $rc
